@@ -9,6 +9,7 @@ def main(tier):
     args = [] if quick else ['--thorough']
     c.build('asan', ['c11'])
     c.run_family('asan', 'c11', 'foreign-eq', args=args, chunk=1, per_case_timeout=30)
+    c.run_family('asan', 'c11', 'resets-api', args=args, chunk=2, per_case_timeout=30)
     c.run_family('asan', 'c11', 'clone-api', args=args, chunk=6 if quick else 16, per_case_timeout=30)
     # the parser costs 1.6 ms per document under ASan and every single mutation needs a fresh parse: the mutation phase of the parsed
     # origin runs on the plain build (value oracle); thorough additionally runs the before-mutation oracle of the parsed origin under ASan
@@ -32,8 +33,12 @@ def main(tier):
             'clone from outside before content/printed form/equals are compared, so any OTHER difference is still reported',
             'foreign-eq (a variable equivalent to a variable outside the model) is a carve-out of the semantic oracle: judged only for no crash, original '
             'untouched, and the clone\'s equivalences among its own variables equal to the original\'s',
-            'a reset whose variable lives in another component is cloned with a private copy of that variable; the serialisation (variable name) is the same and '
-            'this is not judged',
+            'reset links (family resets-api: variable and test_variable each in {own, sibling, child, no component, null}): strict = presence and name of both '
+            'links, equals both ways, printed form, the linked object is never one of the original graph, and a link to a variable of the reset\'s OWN component is '
+            're-targeted to the variable at the same position of the cloned component; a link to a variable of another component or of no component is only '
+            'required to keep serialisation/equality/independence (the clone holds a private parentless copy: recorded as outcome reset-link:*, not judged, since '
+            'neither the statement nor the documentation of clone() promises re-targeting there); the parser can only produce own-component or null links, so '
+            'this grid has no parsed origin',
             'quick enumerates a sub-grid of the dimensions (3x2x2x3x2x3x1x1 = 216 models); thorough the full grid (4x2x4x5x3x4x2x2 = 7680 models); '
             'the API origin runs under ASan/UBSan, the mutation phase of the parsed origin on the plain build (thorough repeats its before-mutation oracle under ASan)',
         ])
